@@ -939,6 +939,19 @@ def check(world, cases, rep: Report, with_model=True):
                                                f'but {ref["args"].get(dest)} when it is the only option set',
                                        'signature': {'kind': 'typed_values_interfere', 'what': 'value'}, 'replay': label(case)})
                 break
+    # (11) the backend constructor receives the effective value of every backend option (None included), and nothing for an
+    #      option nobody supplied that has no default
+    for case, obs in zip(cases, results):
+        if obs['status'] != 'ok' or 'backend' not in obs:
+            continue
+        kwargs = obs['backend'].get('kwargs', {})
+        for dest in obs.get('signature', []):
+            eff = obs['args'].get(dest)
+            if (eff == ['missing'] and dest in kwargs) or (eff != ['missing'] and kwargs.get(dest) != eff):
+                rep.violations.append({'what': f'{case["argv"]} with {case["env"]}: the effective value of backend option {dest} is {eff}, the backend is constructed with '
+                                               f'{kwargs.get(dest, "nothing (its own default)")}',
+                                       'signature': {'kind': 'constructor_argument', 'backend': case['backend']}, 'replay': label(case)})
+                break
     # (4) the backend that was loaded and constructed is the one the effective repository names
     for case, obs in zip(cases, results):
         if obs['status'] == 'ok':
